@@ -84,3 +84,28 @@ Definition guard_current (force : bool) (bufs : list ebuf) : list ebuf * bool :=
        | [] => ([], false)
        | b :: r => let (b', m) := bufs_modified b in (b' :: r, m)
        end.
+
+(* ------------------------------------------------------------------------------------------ *)
+(* the table as it is in ex.c: struct buf bufs[NBUFS] (NBUFS generated from ex.c), slot i occupied iff bufs[i].lb != NULL.
+   ec_quit: for (i = 0; i < LEN(bufs); i++) if (bufs[i].lb) ...  -- EVERY slot is visited, the empty ones are skipped. *)
+Definition NSLOTS : nat := Z.to_nat NBUFS.
+Definition table := list (option ebuf).
+Definition occupied (t : table) : list ebuf := flat_map (fun s => match s with Some b => [b] | None => [] end) t.
+Definition full_table (l : list ebuf) : table := map Some l ++ repeat None (NSLOTS - length l).
+
+(* bufs_switch(idx) on pre ++ Some b :: r, idx = length pre: `if (bufs[0].lb) lbuf_modified(bufs[0].lb)`, then the memmove *)
+Definition bumpS (s : option ebuf) : option ebuf := match s with Some x => Some (bumpE x) | None => None end.
+Definition switch_tab (pre : table) (b : ebuf) (r : table) : table :=
+  match pre with
+  | [] => Some (bumpE b) :: r
+  | x :: p => Some b :: bumpS x :: p ++ r
+  end.
+Fixpoint quit_tab (pre : table) (l : table) : table * bool :=
+  match l with
+  | [] => (rev pre, true)
+  | None :: r => quit_tab (None :: pre) r
+  | Some b :: r => let (b', m) := bufs_modified b in
+                   if m then (switch_tab (rev pre) b' r, false) else quit_tab (Some b' :: pre) r
+  end.
+Definition ec_quit_tab (force : bool) (t : table) : table * bool :=   (* (bufs[], xquit) *)
+  if force then (t, true) else quit_tab [] t.
